@@ -22,12 +22,16 @@ Three-way check per generated model (documented export subset):
 
 Known defects of the pinned tree (generator avoids their triggers; witnesses in corpus/C15):
   D29_kwarg_name   a keyword-argument NAME that is also read as a rewritten global in the same scope
-  comp_var         the variable of a list comprehension is also read as a global in the formula (py>=3.12)
   ifexp_order      `a if c else b` with function scopes in both a and c (libcst vs symtable order)
   (modelx itself rejects global names in default values of cells parameters: never generated)
 Repaired in /repo (the shapes are generated; witnesses stay in corpus/C15, reproducers in corpus/fixed/C15_<key>.py):
   comp_scope       a list comprehension that follows a sibling lambda/def/genexp in its function (py>=3.12) looked its
                    names up in the sibling's symbol table; now in the table of the enclosing scope
+  comp_var         the variable of a list comprehension that is also read as a global in the formula (py>=3.12) was
+                   rewritten to self.k; now it is local to the comprehension.  Still not generated (c15gen.triggers
+                   cpython3121_comp_sibling, NOT a modelx defect): a name bound by one inlined comprehension and read as a
+                   global only in a later inlined comprehension of the same function - CPython 3.12.1 compiles it as a
+                   local of the function, the model itself raises UnboundLocalError
   self_local       a parameter / local variable / nested function / lambda parameter / comprehension variable named `self`
                    hid the instance parameter of the generated method.  Such a formula is outside the export subset
                    (Export/Model.v no_self is a hypothesis of every C15 theorem, Run.v stbl_okb checks it; export_model now
